@@ -230,7 +230,10 @@ func (s *sess) value(t *sessTable, col int) rm.Cell {
 	}
 }
 
-func (s *sess) dml(n int) {
+// dml runs n generated statements; only = "" (mixed) | "insert" | "update" | "delete" restricts the statement kind of
+// this session (a session that changes a table through one statement kind only exercises what that kind alone marks
+// as changed for the next shutdown).
+func (s *sess) dml(n int, only string) {
 	r := s.r
 	for i := 0; i < n && !s.dead && len(s.tabs) > 0; i++ {
 		t := s.tabs[r.Intn(len(s.tabs))]
@@ -242,7 +245,22 @@ func (s *sess) dml(n int) {
 				hasHash = true
 			}
 		}
-		switch c := r.Intn(10); {
+		c := r.Intn(10)
+		switch only {
+		case "insert":
+			c = 0
+		case "update":
+			c = 5
+			if hasHash || len(t.t.Cols) <= 1 || len(t.t.Rows) == 0 {
+				continue
+			}
+		case "delete":
+			c = 9
+			if len(t.t.Rows) == 0 {
+				continue
+			}
+		}
+		switch {
 		case c < 5 || len(t.t.Rows) == 0:
 			k := 1 + r.Intn(4)
 			var rows []rm.Row
@@ -540,7 +558,7 @@ func sessCase(env *core.Env, idx int, prop string) *core.CaseResult {
 				s.bulk(t, 250+r.Intn(350))
 			}
 		}
-		s.dml(10 + r.Intn(60))
+		s.dml(10+r.Intn(60), "")
 		cycles := 2 + r.Intn(3)
 		for c := 0; c < cycles && !s.dead; c++ {
 			s.tags = []string{fmt.Sprintf("cycle-%d", c)}
@@ -580,7 +598,14 @@ func sessCase(env *core.Env, idx int, prop string) *core.CaseResult {
 				res.Nontrivial = true
 				res.Add("nontrivial_cycles", 1)
 			}
-			s.dml(5 + r.Intn(25))
+			// the session between two clean restarts: mixed statements, one statement kind only, or read-only
+			switch kind := []string{"", "", "update", "insert", "delete", "none"}[r.Intn(6)]; kind {
+			case "none":
+				res.Add("sessions_read_only", 1)
+			default:
+				s.dml(5+r.Intn(25), kind)
+				res.Add("sessions_"+map[string]string{"": "mixed", "update": "update_only", "insert": "insert_only", "delete": "delete_only"}[kind], 1)
+			}
 			if r.Intn(3) == 0 && len(s.tabs) < 4 && !s.dead {
 				s.createTable()
 			}
@@ -606,7 +631,7 @@ func sessCase(env *core.Env, idx int, prop string) *core.CaseResult {
 				res.Add("tables_created_after_restart_with_older_data", 1)
 			}
 			s.identity("after CREATE TABLE " + s.tabs[len(s.tabs)-1].decl)
-			s.dml(3 + r.Intn(15))
+			s.dml(3+r.Intn(15), "")
 			if s.dead {
 				break
 			}
@@ -718,7 +743,7 @@ func sessCase(env *core.Env, idx int, prop string) *core.CaseResult {
 					break
 				}
 				s.identity("after restart (" + strings.TrimPrefix(s.tags[0], "restart-") + ")")
-				s.dml(2 + r.Intn(8))
+				s.dml(2+r.Intn(8), "")
 			}
 		}
 		if !s.dead {
